@@ -23,7 +23,7 @@ RULE = ('cases = a closed path (polygons convex / concave / self-intersecting, b
         'ellipses of two arcs; mixed) with (a) its area and the metamorphic relations reversed / translated / scaled, (b) query points '
         'in 1.5x the bounding box with an outside point, (c) a second path nested / disjoint / crossing for is_contained_by; distinct '
         'by spec; non-trivial if an oracle verdict was reached')
-RULE += '; axis-parallel probes; grid-aligned coordinates and a construction whose inner start is level with notch tips of the outer path'
+RULE += '; axis-parallel probes; grid-aligned coordinates and a construction whose inner start is level with notch tips of the outer path; boxes with a thin slit 1e4..1e6 sizes away from the origin (probe crosses both slit walls)'
 ASSUMPTIONS = ['vt/ref/exact.py; the winding number is accumulated over 2048 samples per segment and points closer than 1e-6*size to the path are skipped',
                'the probe precondition (transversal >= 5 degrees, >= 1e-3*size from every joint, no other approach within 1e-4*size) is decided from 2048-sample polylines',
                'arc areas: tolerance = chord approximation bound L*chord^2*kappa_max/8']
@@ -31,11 +31,11 @@ TIERS = {
     'quick': {'shards': 14, 'random': 1700, 'timeout': 900, 'min_cases': 1000, 'max_timeouts': 5,
               'require_branches': ['shape:polygon', 'shape:bezier', 'shape:arcs', 'orientation:cw', 'orientation:ccw',
                                    'enclosed:True', 'enclosed:False', 'contained:True', 'contained:False',
-                                   'relation:reversed', 'shape:self-intersecting', 'probe:axis-parallel', 'coords:grid-aligned']},
+                                   'relation:reversed', 'shape:self-intersecting', 'probe:axis-parallel', 'coords:grid-aligned', 'coords:far-from-origin-thin-slit']},
     'thorough': {'shards': 14, 'random': 90000, 'timeout': 3400, 'min_cases': 50000, 'max_timeouts': 100,
                  'require_branches': ['shape:polygon', 'shape:bezier', 'shape:arcs', 'orientation:cw', 'orientation:ccw',
                                       'enclosed:True', 'enclosed:False', 'contained:True', 'contained:False',
-                                      'relation:reversed', 'shape:self-intersecting', 'probe:axis-parallel', 'coords:grid-aligned']},
+                                      'relation:reversed', 'shape:self-intersecting', 'probe:axis-parallel', 'coords:grid-aligned', 'coords:far-from-origin-thin-slit']},
 }
 CASE_TIMEOUT = 30
 EPS = gen.EPS
@@ -368,9 +368,48 @@ def _crown(rng):
     return outer, inner, max(W, H) * k, (complex(W / 2.0, H / 2.0) + off) * k
 
 
+def _slit_box(rng):
+    """a box with a thin slit cut in from one side, drawn far from the origin (map / plotter coordinates): the probe of
+    a point behind the slit crosses both slit walls within a small fraction of the coordinates' magnitude"""
+    S = 20.0
+    w = rng.uniform(0.2, 1.0)
+    c = rng.uniform(6, 14)
+    d = rng.uniform(2, 8)
+    pts = [0j, complex(S, 0), complex(S, S), complex(c + w / 2, S), complex(c + w / 2, d), complex(c - w / 2, d),
+           complex(c - w / 2, S), complex(0, S)]
+    if rng.random() < 0.5:
+        pts.reverse()
+    rot = complex(math.cos(th), math.sin(th)) if (th := rng.choice([0.0, 0.0, rng.uniform(0, 6.28)])) else 1.0
+    k = 2.0 ** rng.randint(-1, 2)
+    mag = 10.0 ** rng.uniform(4, 6) * S * k / 20.0
+    ang = rng.uniform(0, 6.28)
+    off = complex(round(mag * math.cos(ang)), round(mag * math.sin(ang)))
+
+    def place(z):
+        return z * rot * k + off
+    outer = [['L', [place(a).real, place(a).imag], [place(b).real, place(b).imag]] for a, b in zip(pts, pts[1:] + pts[:1])]
+    y = rng.uniform(d + 1, S - 1)
+    u = rng.uniform(0.3, 3)
+    q = [complex(c + w / 2 + u, y), complex(c - w / 2 - u, y), complex(c, y), complex(c + w / 2 + u, d - rng.uniform(0.3, 1.5))]
+    outs = [complex(-2 * S, y + rng.uniform(-0.04, 0.04) * S), complex(3 * S, y + rng.uniform(-0.04, 0.04) * S)]
+    x0 = c + w / 2 + rng.uniform(0.5, 3)
+    tri = [complex(x0, y), complex(x0 + 0.5, y + 0.3), complex(x0 + 0.2, y - 0.4)]
+    r = rng.random()
+    if r < 0.25:
+        tri = [complex(c - 0.2 * w, y), complex(c + 0.2 * w, y + 0.1), complex(c, y - 0.1)]      # inside the slit: not contained
+    elif r < 0.4:
+        tri = [z + complex(0, S + 3) for z in tri]                                               # outside the box
+    inner = [['L', [place(a).real, place(a).imag], [place(b).real, place(b).imag]] for a, b in zip(tri, tri[1:] + tri[:1])]
+    return outer, inner, [[place(z).real, place(z).imag] for z in q], [[place(z).real, place(z).imag] for z in outs]
+
+
 def cases(ctx):
     rng = ctx.rng
     n = TIERS[ctx.tier]['random'] // ctx.nshards
+    for i in range(n // 12):
+        outer, inner, pts, outs = _slit_box(rng)
+        yield {'kind': 'closed', 'segs': outer, 'other': inner, 'rel': 'nested-slit', 'pts': pts, 'outs': outs, 'grid': False,
+               'far': True, 'tf': {'z': [3.0, -7.0], 'sx': 2.0, 'sy': -0.5}, 'cls': ['shape:polygon', 'rel:nested-slit', 'far-thin-slit']}
     for i in range(n // 12):
         outer, inner, scale, centre = _crown(rng)
         pts = [[centre.real + scale * rng.uniform(-0.7, 0.7), centre.imag + scale * rng.uniform(-0.7, 0.7)] for _ in range(2)]
@@ -428,6 +467,8 @@ def run_case(ctx, case):
             ctx.branch(c)
     if case.get('grid'):
         ctx.branch('coords:grid-aligned')
+    if case.get('far'):
+        ctx.branch('coords:far-from-origin-thin-slit')
     has_arcs = any(type(s).__name__ == 'Arc' for s in p)
     size = max(I.diag(s) for s in p)
     if has_arcs:
@@ -442,7 +483,9 @@ def run_case(ctx, case):
     ar = p.reversed().area(**kw)
     at = p.translated(complex(*case['tf']['z'])).area(**kw)
     ctx.verdict()
-    tol = 1e-9 * size * size + (abs(a0) * 1e-3 if has_arcs else 0)
+    mag = max(abs(z) for sg in p for z in (sg.start, sg.end))
+    rnd = 64 * EPS * len(p) * (size + mag) ** 2          # rounding of the products of coordinates (same term as post_area)
+    tol = 1e-9 * size * size + rnd + (abs(a0) * 1e-3 if has_arcs else 0)
     if not (abs(ar + a0) <= tol):
         ctx.violation('relation/reversed', 'area does not change sign under reversed()', {'a': float(a0), 'reversed': float(ar)})
     if not (abs(at - a0) <= tol + 1e-9 * abs(complex(*case['tf']['z'])) * size):
@@ -451,7 +494,7 @@ def run_case(ctx, case):
         sx, sy = case['tf']['sx'], case['tf']['sy']
         asx = p.scaled(sx, sy).area()
         ctx.verdict()
-        if not (abs(asx - sx * sy * a0) <= 1e-9 * size * size * abs(sx * sy) + 1e-12):
+        if not (abs(asx - sx * sy * a0) <= 1e-9 * size * size * abs(sx * sy) + 2 * rnd * max(abs(sx), abs(sy)) ** 2 + 1e-12):
             ctx.violation('relation/scaled', 'area does not scale by the determinant', {'a': float(a0), 'scaled': float(asx),
                                                                                         'det': sx * sy})
     xs = [b for sg in p for b in (sg.bbox() if type(sg).__name__ == 'Arc' else
